@@ -24,6 +24,7 @@
 -/
 import PrologVerif.Proofs.RelErrors
 import PrologVerif.Proofs.RelList
+import PrologVerif.Proofs.Utf8
 namespace PrologVerif.C16
 open PrologVerif PrologVerif.Rel PrologVerif.Relations
 
@@ -713,6 +714,42 @@ theorem C16_succ_monotone {x s x' s' : Term} {ans ans' : Answers}
 
 example : Rel.succ (.var 0) (.int maxInt) = .ok [[.int (maxInt - 1), .int maxInt]] := by decide +kernel
 example : Rel.succ (.int maxInt) (.var 0) = .error (evaluationErr "int_overflow") := by decide +kernel
+
+/-! ## text is measured in characters (code points), not bytes -/
+
+/-- atom_concat/3: the Go loop `for i := range s { s[:i], s[i:] }` + `(s, "")` over the UTF-8
+    bytes of the atom yields exactly the encodings of the code-point splits the model enumerates,
+    in the same order -/
+theorem C16_text_is_chars_concat (cs : List Char) :
+    Utf8.concatSplitsBytes (Utf8.encode cs) =
+      (concatSplits cs).map fun p => (Utf8.encode p.1, Utf8.encode p.2) := by
+  unfold Utf8.concatSplitsBytes concatSplits
+  rw [Utf8.rangeStarts_encode _ cs 0 (Utf8.length_encode_le cs)]
+  have hnil : Utf8.encode [] = [] := rfl
+  simp only [List.map_map, List.map_append, List.map_cons, List.map_nil, hnil]
+  congr 1
+  apply List.map_congr_left
+  intro k _
+  have := Utf8.take_encode cs k
+  simp only [Function.comp, Nat.zero_add, this.1, this.2]
+
+/-- atom_length/2: `len([]rune(s))` is the number of code points -/
+theorem C16_text_is_chars_length (cs : List Char) : Utf8.runeCount (Utf8.encode cs) = cs.length := by
+  simp [Utf8.runeCount, Utf8.runes_encode _ cs (Utf8.length_encode_le cs)]
+
+/-- sub_atom/5: `string(rs[i:j])` with `rs := []rune(s)` is the encoding of the code points i..j -/
+theorem C16_text_is_chars_sub (cs : List Char) (i j : Nat) :
+    Utf8.runeSlice (Utf8.encode cs) i j = Utf8.encode ((cs.drop i).take (j - i)) := by
+  simp [Utf8.runeSlice, Utf8.runes_encode _ cs (Utf8.length_encode_le cs)]
+
+/-- a byte string names one text: comparing atoms by their bytes is comparing their code points -/
+theorem C16_text_encode_injective {a b : List Char} (h : Utf8.encode a = Utf8.encode b) : a = b :=
+  Utf8.encode_inj h
+
+/-- on multi-byte text byte offsets and character positions differ; the enumeration is by character -/
+example : Utf8.concatSplitsBytes (Utf8.encode "é€".toList) =
+    [([], [0xC3, 0xA9, 0xE2, 0x82, 0xAC]), ([0xC3, 0xA9], [0xE2, 0x82, 0xAC]), ([0xC3, 0xA9, 0xE2, 0x82, 0xAC], [])] := by
+  decide +kernel
 
 
 end PrologVerif.C16
